@@ -358,6 +358,31 @@ def part_log():
                   f'def watchTextOnValue : FieldTextSrc := {srcs["value"]}\n'
                   f'def watchTextOnLimit : FieldTextSrc := {srcs["limit"]}\n'
                   f'def watchLimitText : String := {lean_str(limit_text)}\n\n')
+    # TriggerContext.__exit__: the loop that processes the attached results, and the try around ONE result
+    ex = find_def(load(TCTX), 'TriggerContext.__exit__')
+    body = [x for x in ex.body if not (isinstance(x, ast.Expr) and isinstance(x.value, ast.Constant))]
+    loops = [n for n in ast.walk(ex) if isinstance(n, ast.For)]
+    if len(loops) != 1 or ast.unparse(loops[0].iter) != 'self.__results' or loops[0].orelse:
+        raise Untranslatable('TriggerContext.__exit__: expected one loop over self.__results')
+    loop = loops[0]
+    if not any('.process(self)' in ast.unparse(n) for n in ast.walk(loop) if isinstance(n, ast.Call)):
+        raise Untranslatable('TriggerContext.__exit__: the loop no longer calls result.process(self)')
+    if loop in body and len(loop.body) == 1 and isinstance(loop.body[0], ast.Try) and not loop.body[0].finalbody \
+            and len(loop.body[0].handlers) == 1:
+        h = loop.body[0].handlers[0]
+        cls = ast.unparse(h.type) if h.type is not None else 'BaseException'
+        if cls not in ('Exception', 'BaseException') or \
+                any(isinstance(x, (ast.Raise, ast.Return, ast.Break)) for st in h.body for x in ast.walk(st)):
+            raise Untranslatable('TriggerContext.__exit__: handler of a result ' + cls)
+        result_guard = 'some .exc' if cls == 'Exception' else 'some .base'
+    elif loop in body:
+        result_guard = 'none'            # no try at all around a result
+    else:
+        # the loop sits inside something else (a try around the WHOLE loop): a failing result ends the loop
+        result_guard = 'none'
+    watch_part += ('/-- `TriggerContext.__exit__`: the `try` around the processing of ONE attached result inside the loop\n'
+                   '    (none = a result that raises ends the loop) -/\n'
+                   f'def resultLoopGuard : Option Py.Exn := {result_guard}\n\n')
     # snapshot + log
     sp = find_def(load(SNAP), 'SnapshotActionContext._process_action')
     stmts = set()
